@@ -166,6 +166,29 @@ def run(tier, replay=None):
         n['newpolicy'] += 1
         if compare('NEWPOLICY', i, cap.sent[0], c['b']):
             emitted.append(('NEWPOLICY', i, cap.sent[0]))
+    # Xfrm.create_policies: the protect entries of one connection in order (XfrmWire.tla EntryLists) - every request says what ITS entry means
+    import configuration
+    import world as wd
+    n['policy_lists'] = 0
+    lists = sorted(vec['policy_lists'], key=lambda c: json.dumps(c['entries'], sort_keys=True))
+    for c in (lists if tier == 'thorough' else [x for x in lists if len(x['entries']) == 3] + rnd.sample(lists, 40)):
+        conn = wd.connection_dict('A', 'B')
+        conn['protect'] = [{'index': e['index'], 'ip_proto': {6: 'tcp', 17: 'udp', 0: 'any'}[e['sel']['proto']], 'mode': 'tunnel' if e['mode'] else 'transport',
+                            'ipsec_proto': 'esp' if e['ipsec_proto'] == 50 else 'ah', 'my_port': e['sel']['sport'], 'peer_port': e['sel']['dport'],
+                            'my_subnet': f"{ipaddress.ip_address(bytes(e['sel']['saddr']))}/{e['sel']['plen_s']}",
+                            'peer_subnet': f"{ipaddress.ip_address(bytes(e['sel']['daddr']))}/{e['sel']['plen_d']}"} for e in c['entries']]
+        cfg = configuration.Configuration([ipaddress.ip_address(conn['my_addr'])], {'A-B': conn})
+        ike_conf = next(iter(cfg.ike_configurations.values()))
+        cap.sent.clear()
+        xfrm.Xfrm.create_policies(ike_conf)
+        n['policy_lists'] += 1
+        if len(cap.sent) != len(c['requests']):
+            v.violation(f'create_policies: {len(cap.sent)} requests for {len(c["entries"])} protect entries, expected {len(c["requests"])}', {'entries': c['entries']},
+                        signature={'component': 'policies:count'})
+            continue
+        for k, (got, want) in enumerate(zip(list(cap.sent), c['requests'])):
+            if compare(f'NEWPOLICY no. {k + 1} of create_policies ({len(c["entries"])} entries, entry {k // 3 + 1})', c['intents'][k], got, want):
+                emitted.append(('NEWPOLICY', c['intents'][k], got))
     for c in vec['flush']:
         cap.sent.clear()
         (xfrm.Xfrm.flush_policies if c['policy'] else xfrm.Xfrm.flush_sas)()
